@@ -68,7 +68,14 @@ fn case(r: &mut Rng, res: &mut CaseResult) {
         ConnectionTuning::default()
     };
     let backlog_at_close = small_tuning && r.bool();
-    let (conn, h) = session::open_with(Reflex::default(), session::default_opts(), tuning, |h| {
+    // rarely: heartbeats on and a server that takes longer than the interval to answer
+    // the close - a heartbeat frame written after Connection.Close would break "last frame"
+    let hb_case = client_close && r.chance(1, 50);
+    let mut reflex0 = Reflex::default();
+    if hb_case {
+        reflex0.tune = (2047, 131072, 1);
+    }
+    let (conn, h) = session::open_with(reflex0, session::default_opts().heartbeat(if hb_case { 1 } else { 0 }), tuning, |h| {
         h.with(|st| st.write_max = write_max);
     });
     let mut conn = match conn {
@@ -199,7 +206,7 @@ fn case(r: &mut Rng, res: &mut CaseResult) {
         // In half of the runs the server takes its time to answer, and other threads
         // submit operations after Connection.Close has reached the server and before
         // CloseOk: none of that may ever be written.
-        let slow_server = r.bool();
+        let slow_server = r.bool() || hb_case;
         let late2 = late.clone();
         h.with(|st| {
             st.reflex.custom = Some(Box::new(move |f, rf, out, end| {
@@ -247,7 +254,10 @@ fn case(r: &mut Rng, res: &mut CaseResult) {
                     extra[ci] += 1;
                 }
             }
-            std::thread::sleep(Duration::from_millis(r.range(1, 4)));
+            std::thread::sleep(Duration::from_millis(if hb_case { 1400 } else { r.range(1, 4) }));
+            if hb_case {
+                res.obs("closes_outlasting_a_heartbeat_interval", 1);
+            }
             let after = h.out_len();
             if after != wire_at_close {
                 res.violate("written_after_close", format!("{} bytes were written after Connection.Close had been written (operations submitted by other threads before CloseOk arrived)", after - wire_at_close));
